@@ -124,6 +124,7 @@ type Ghost struct {
 	JumpBack   bool   `json:"jumpBack"` // the user jumped to a lower step index during this release
 	LateChange bool   `json:"lateChange"` // the user changed the template while the rollout was already finalising / cancelling
 	MidSwitch  bool   `json:"midSwitch"`  // the user changed the reason to finalise (rollback, newer revision, delete, disable) while a finalising / reset sequence was under way
+	SupBack    bool   `json:"supBack"`    // the user rolled back after a newer revision had superseded the one being released (v2 -> v3 -> back to v1)
 	DisSup     bool   `json:"disSup"`     // the Rollout was disabled / deleted while a newer revision (or a rollback) than the one being released was pending, or vice versa
 	ReadySteps []int  `json:"readySteps"`
 	ReadyRev   string `json:"readyRev"`
@@ -814,6 +815,9 @@ func (w *World) getRollout() *v1beta1.Rollout {
 
 func (w *World) userDo(a string) error {
 	switch {
+	case a == "user.rollback" && w.Ghost.Rev >= 3:
+		w.Ghost.SupBack = true
+		fallthrough
 	case a == "user.rollback", a == "user.release3", a == "user.delete", a == "user.disable":
 		if ro := w.getRollout(); ro != nil && ro.Status.GetSubStatus() != nil {
 			if f := ro.Status.GetSubStatus().FinalisingStep; f != "" && f != v1beta1.FinalisingStepTypeEnd {
